@@ -656,9 +656,18 @@ pub fn run_l1(case: &L1Case) -> RunOut {
     let mut ctx = Ctx::new(&pool, &shared, 0);
     let mut held: Vec<Held> = vec![];
     let mut raws: Vec<RawRes> = vec![];
+    let mut empty_acquires = 0u32;
     for op in &case.ops {
         match *op {
             Op::Acquire => {
+                // acquire on an empty pool is a futex wait with a zero timeout (~100us of system call):
+                // the timeout path is exercised once per history, further empty acquires are skipped
+                if pool.count().map(|n| n == 0).unwrap_or(false) {
+                    empty_acquires += 1;
+                    if empty_acquires > 1 {
+                        continue;
+                    }
+                }
                 if let Some(mut h) = ctx.acquire(Duration::ZERO) {
                     h.item.dirty = true;
                     held.push(h);
@@ -712,6 +721,10 @@ fn quiesce<'p>(ctx: &mut Ctx<'p>, size: usize) -> Vec<Held<'p>> {
     let mut drained: Vec<Held<'p>> = vec![];
     // bounded: a pool that grew beyond its size is still drained, but never endlessly
     for _ in 0..(size * 4 + 8) {
+        // (an acquire on the empty pool would only cost a zero-timeout futex wait)
+        if ctx.pool.count().map(|n| n == 0).unwrap_or(false) {
+            break;
+        }
         match ctx.acquire(Duration::ZERO) {
             Some(h) => drained.push(h),
             None => break,
